@@ -17,7 +17,7 @@ impl Check for C29 {
         "C29"
     }
     fn cases(&self, tier: Tier) -> u64 {
-        tier.pick(1500, 100_000)
+        tier.pick(2400, 100_000)
     }
     fn rule(&self) -> String {
         "case = a seeded multi-replica history; on one replica a head set H from its own history (strictly historical in most cases, incl. heads of concurrent branches) is chosen and either AutoCommit::isolate(H) or Automerge::transaction_at(H) is entered. Checked: (1) the reads under isolation equal fork_at(H) and REF(ancestors(H)); (2) 4–15 model-checked calls (SEQ seeded from the isolated view) have their documented effect on that view; (3) the committed changes depend only on H and the isolated chain, and leave the non-isolated changes untouched; (4) after integrate() the document equals the independent interpretation of all its changes and equals a clone taken before isolation to which the isolated changes were applied. Non-trivial = H strictly historical and later changes touch the same objects; distinct by (history, H, edits).".into()
@@ -40,8 +40,10 @@ impl Check for C29 {
             use automerge::transaction::Transactable;
             let key = format!("p{}", rng.below(2));
             w.merge(1, 0);
-            let _ = w.docs[0].put(automerge::ROOT, key.as_str(), automerge::ScalarValue::counter(10));
-            let _ = w.docs[1].put(automerge::ROOT, key.as_str(), "plain");
+            // either the counter or the plain value gets the greater op id
+            let (cdoc, pdoc) = if rng.chance(50) { (0, 1) } else { (1, 0) };
+            let _ = w.docs[cdoc].put(automerge::ROOT, key.as_str(), automerge::ScalarValue::counter(10));
+            let _ = w.docs[pdoc].put(automerge::ROOT, key.as_str(), "plain");
             w.merge(0, 1);
             w.merge(1, 0);
             let hstar = w.docs[0].get_heads();
